@@ -22,6 +22,8 @@ type SimNet struct {
 	Opened  int
 	Closed  int
 	WriteErr map[string]error // local address -> error returned by WriteTo
+	// OnWrite, when set, sees every datagram written; returning true means it took care of it (not recorded in Out)
+	OnWrite func(o Outgoing) bool
 }
 
 type Outgoing struct {
@@ -139,11 +141,21 @@ func (c *SimPacketConn) WriteTo(p []byte, addr net.Addr) (int, error) {
 	default:
 	}
 	c.net.mu.Lock()
-	defer c.net.mu.Unlock()
 	if err := c.net.WriteErr[c.local.String()]; err != nil {
+		c.net.mu.Unlock()
 		return 0, err
 	}
-	c.net.Out = append(c.net.Out, Outgoing{From: c.local, To: addr, Data: append([]byte{}, p...)})
+	o := Outgoing{From: c.local, To: addr, Data: append([]byte{}, p...)}
+	hook := c.net.OnWrite
+	if hook == nil {
+		c.net.Out = append(c.net.Out, o)
+	}
+	c.net.mu.Unlock()
+	if hook != nil && !hook(o) {
+		c.net.mu.Lock()
+		c.net.Out = append(c.net.Out, o)
+		c.net.mu.Unlock()
+	}
 	return len(p), nil
 }
 
